@@ -24,6 +24,8 @@ func init() {
 }
 
 func runC05(c *eng.Ctx) {
+	c.Rule("R01.15", "K4")
+	ruleRollExcludesAppend(c)
 	p := c.P
 	// (shared with C01) what recovery reads back is what the append assigned: offsets and positions come from the segment
 	// that is written, resolved under the lock that excludes a roll
